@@ -160,6 +160,8 @@ class SymRepo(G.Repository):
         self.cache = None
         self.cache_tags = None
         self.fetch_fault = None   # True / z3 Bool: the next refresh of the mirror cache fails
+        self.push_count = 0
+        self.fail_push_at = None  # index (1-based, over the whole run) of a push command that fails once
         self.race_ref = None      # a branch somebody pushes to during the next clone
         self.raced = []
         self.content_keyed = False
@@ -696,6 +698,10 @@ class SymRepo(G.Repository):
         self.third_party('before push %s' % ' '.join(rest))
         if self.boundary is not None:
             self.boundary(self, 'git push %s' % ' '.join(rest))
+        self.push_count += 1
+        if self.fail_push_at is not None and self.push_count == self.fail_push_at:
+            # a transient failure of this one push command (network, server hiccup): nothing is updated
+            raise CommandError('fatal: the remote end hung up unexpectedly')
         force = '--force' in flags
         if '--all' in flags:
             atomic = '--atomic' in flags
